@@ -19,7 +19,12 @@ pub fn run(args: &[String]) -> i32 {
             }
             0
         }
-        _ => mkfs_vs_reader(args.get(0).and_then(|s| s.parse().ok()).unwrap_or(300)),
+        Some("shipped-image") => shipped_image(),
+        _ => {
+            let a = mkfs_vs_reader(args.get(0).and_then(|s| s.parse().ok()).unwrap_or(300));
+            let b = shipped_image();
+            a.max(b)
+        }
     }
 }
 
@@ -148,6 +153,109 @@ fn mkfs_vs_reader(n: u64) -> i32 {
         }
     }
     println!("selftest mkfs<->fatspec: {} devices, {} bad", n, bad);
+    if bad == 0 {
+        0
+    } else {
+        2
+    }
+}
+
+
+/// The reader must understand an image it did not make: the repository's own tests/disk.img.gz
+/// (made on macOS) must read back as the listing documented in tests/utils/mod.rs.
+fn shipped_image() -> i32 {
+    use std::io::Read;
+    let path = "/repo/tests/disk.img.gz";
+    let f = match std::fs::File::open(path) {
+        Ok(f) => f,
+        Err(e) => {
+            println!("shipped image: cannot open {}: {} (skipped)", path, e);
+            return 0;
+        }
+    };
+    let mut gz = flate2::read::GzDecoder::new(std::io::BufReader::new(f));
+    let mut img = crate::disk::Image::new(1_048_576, false);
+    let mut buf = [0u8; 512];
+    let mut idx = 0u32;
+    loop {
+        let mut got = 0;
+        while got < 512 {
+            match gz.read(&mut buf[got..]) {
+                Ok(0) => break,
+                Ok(n) => got += n,
+                Err(e) => {
+                    println!("shipped image: read error {}", e);
+                    return 2;
+                }
+            }
+        }
+        if got < 512 {
+            break;
+        }
+        if buf.iter().any(|&b| b != 0) {
+            img.set(idx, &buf);
+        }
+        idx += 1;
+    }
+    let mut bad = 0;
+    let mbr = fatspec::read_mbr(&img).unwrap();
+    let want: [(usize, bool, &[(&str, u32, bool)]); 2] = [
+        (0, false, &[("64MB.DAT", 67108864, false), ("EMPTY.DAT", 0, false), ("README.TXT", 258, false), ("TEST", 0, true), ("TEST/TEST.DAT", 3500, false)]),
+        (1, true, &[("64MB.DAT", 67108864, false), ("EMPTY.DAT", 0, false), ("README.TXT", 258, false), ("TEST", 0, true), ("TEST/TEST.DAT", 3500, false)]),
+    ];
+    for (slot, fat32, files) in want {
+        let pe = &mbr[slot];
+        let g = match fatspec::Geom::parse(&img, pe.lba, pe.blocks) {
+            Ok(g) => g,
+            Err(e) => {
+                println!("shipped image: partition {} does not parse: {}", slot, e);
+                bad += 1;
+                continue;
+            }
+        };
+        if g.fat32 != fat32 {
+            println!("shipped image: partition {} FAT type wrong", slot);
+            bad += 1;
+        }
+        let fat = fatspec::FatView::load(&img, &g, 0);
+        let t = fatspec::walk(&img, &g, &fat, &fatspec::FsckOpts::default());
+        if !t.problems.is_empty() {
+            println!("shipped image: partition {} fsck problems {:?}", slot, t.problems);
+            bad += 1;
+        }
+        for (path, size, is_dir) in files {
+            let comps: Vec<&str> = path.split('/').collect();
+            let mut dir = 0usize;
+            let mut found = false;
+            for (i, c) in comps.iter().enumerate() {
+                match t.dirs[dir].ents.iter().find(|e| fatspec::name_str(&e.name) == *c) {
+                    Some(e) => {
+                        if i + 1 == comps.len() {
+                            found = e.is_dir() == *is_dir && (*is_dir || e.size == *size);
+                        } else {
+                            let mut p = t.dirs[dir].path.clone();
+                            p.push(e.name);
+                            match t.find_dir(&p) {
+                                Some(d) => dir = d,
+                                None => break,
+                            }
+                        }
+                    }
+                    None => break,
+                }
+            }
+            if !found {
+                println!("shipped image: partition {}: {} not found as documented", slot, path);
+                bad += 1;
+            }
+        }
+        // the library and the reader must agree on the whole tree as well
+        for (o, d) in crate::check::lib_tree_compare(&img, slot as u8, &g, &t, 0) {
+            println!("shipped image: partition {}: library vs reader: {} {}", slot, o, d);
+            bad += 1;
+        }
+    }
+    println!("selftest shipped image (tests/disk.img.gz, made by macOS): {} blocks, {} bad", idx, bad);
     if bad == 0 {
         0
     } else {
